@@ -13,7 +13,7 @@ TRUST = ('Static rule conformance decided from /repo source on every run. '
 P = {
  'C01': dict(
   tech='effect analysis (shared-mutable-state / who-writes-what) over the parse path, incl. ply lexer hand-off',
-  text='Sufficient structural condition: no mutable location is shared between two parses of one engine (fresh ply lexer per call or one lock shared by every engine built around that lexer, token/grammar actions store only into per-call objects and never read ply's per-parse parser state, error hook raises so ply never enters recovery). If the rules pass, the property holds for all texts, histories and schedules given ply\'s documented contract.',
+  text='Sufficient structural condition: no mutable location is shared between two parses of one engine (fresh ply lexer per call or one lock shared by every engine built around that lexer, token/grammar actions store only into per-call objects and never read the per-parse parser state of ply, error hook raises so ply never enters recovery). If the rules pass, the property holds for all texts, histories and schedules given ply\'s documented contract.',
   note=TRUST + 'ply 3.11 LRParser.parse keeps its stacks in locals; Lexer.clone() gives an independent cursor.',
   ref='6/C01'),
  'C02': dict(
@@ -24,7 +24,7 @@ P = {
   ref='6/C02'),
  'C03': dict(
   tech='exception-escape analysis of lexer/parser actions + guard-regex vs partial-conversion domain',
-  text='Decides that no non-YAQL exception can escape the token/grammar actions: every partial conversion (int/float/codecs.decode/chr/...) is either applied to text whose guard regex is included in the conversion\'s domain or sits in a try whose handler raises a YaqlParsingException subclass; error hooks raise YAQL exceptions on every path; reported positions are unmodified token positions; the text handed to ply is the caller's text; no token regex is exponentially ambiguous; no function on the parse path is recursive.',
+  text='Decides that no non-YAQL exception can escape the token/grammar actions: every partial conversion (int/float/codecs.decode/chr/...) is either applied to text whose guard regex is included in the conversion\'s domain or sits in a try whose handler raises a YaqlParsingException subclass; error hooks raise YAQL exceptions on every path; reported positions are unmodified token positions; the text handed to ply is the text the caller passed; no token regex is exponentially ambiguous; no function on the parse path is recursive.',
   note=TRUST + 'ply\'s token loop and LR driver terminate and never raise anything themselves once t_error/p_error raise.',
   ref='6/C03'),
  'C04': dict(
@@ -89,7 +89,7 @@ P = {
   ref='6/C15'),
  'C16': dict(
   tech='regular-language checks on the lexer\'s token/escape regexes + def-use in token actions',
-  text='Lexer-level necessary clauses: escapes are decoded per matched escape, the escape alternatives cover the documented set without shadowing, quoted-token regexes denote Q([^Q\\\\]|\\\\.)*Q, keyword guard and keyword table, context-free word classification, number conversion choice (decided by abstract evaluation of the token actions), constant nodes carry the token value, the lexer sees the caller's text. The round trip for every string is not decided.',
+  text='Lexer-level necessary clauses: escapes are decoded per matched escape, the escape alternatives cover the documented set without shadowing, quoted-token regexes denote Q([^Q\\\\]|\\\\.)*Q, keyword guard and keyword table, context-free word classification, number conversion choice (decided by abstract evaluation of the token actions), constant nodes carry the token value, the lexer sees the text the caller passed. The round trip for every string is not decided.',
   note=TRUST + 're._parser syntax trees of the token regexes.',
   ref='6/C16'),
  'C17': dict(
